@@ -5,13 +5,16 @@
 P=$(readlink -f "$1"); ID=$2; TIER=${3:-quick}
 W=/tmp/mut/repo
 mkdir -p /tmp/mut
+# one mutant run at a time (the scratch worktree and its build directory are shared)
+exec 9>/tmp/mut/.lock
+flock 9
 if [ ! -d $W/.git ] && [ ! -f $W/.git ]; then git -C /repo worktree add -q --detach $W HEAD; fi
 git -C $W checkout -q -- . && git -C $W checkout -q --detach $(git -C /repo rev-parse HEAD)
 git -C $W apply "$P" || { echo "PATCH DOES NOT APPLY"; exit 3; }
 cd /verif
 VERIF_REPO=$W VERIF_BUILD=/verif/build/alt ./check $ID --tier $TIER > /tmp/mut/last.log 2>&1
 rc=$?
-grep -E "^VIOLATION|^KNOWN-FINDING|^MACHINERY|^--- violation" /tmp/mut/last.log | head -12
+grep -aE "^VIOLATION|^KNOWN-FINDING|^MACHINERY|^--- violation" /tmp/mut/last.log | head -12
 echo "exit=$rc"
 git -C $W checkout -q -- .
 exit 0
